@@ -13,6 +13,7 @@ ID = 'C02'
 BUDGET = {'quick': 20000, 'thorough': 1000000}
 WALL = {'quick': 100, 'thorough': 1500}
 CHUNK = 60
+REQUIRED_PROBES = ['sweep_layouts', 'padded_block', 'extent_eq_procs', 'accessors_on_swapper_grid']
 RULE = ('case 0 = complete sweep of Layout for all extents n in 1..40 and process counts p in 1..n '
         '(every rank coordinate); other cases = the C01 generator (shape, process grid, orderings, '
         'dtype, transposes) run on P simulated ranks: every rank reports its partition tables, a Grid '
